@@ -3,6 +3,11 @@
 
 package builtInFunctions
 
+import (
+	vmcommon "github.com/ElrondNetwork/elrond-vm-common"
+	"github.com/ElrondNetwork/elrond-vm-common/parsers"
+)
+
 // Contracts for govc, the contract-based deductive verifier kept in /verif (see /verif/DESIGN.md).
 // Compiled only under the "verif" build tag; comment-only apart from ghost lemma functions.
 //
@@ -809,3 +814,32 @@ func lemmaActivationFollowsLastEpoch(b *baseEnabled, e1, e2 uint32, t1, t2 uint6
 //@   requires b != nil && !isNil(b.builtInFunctions)
 //@   ensures[C16] !(completeBase(gasSchedule["BaseOperationCost"]) && completeBuiltIn(gasSchedule["BuiltInCost"])) ==> unchangedAll()
 //@   modifies b.gasConfig, heap(H|builtInFunctions.changeOwnerAddress|.gasCost), heap(H|builtInFunctions.claimDeveloperRewards|.gasCost), heap(H|builtInFunctions.saveUserName|.gasCost), heap(H|builtInFunctions.saveKeyValueStorage|.funcGasCost), heap(H|builtInFunctions.saveKeyValueStorage|.gasConfig.StorePerByte), heap(H|builtInFunctions.saveKeyValueStorage|.gasConfig.ReleasePerByte), heap(H|builtInFunctions.saveKeyValueStorage|.gasConfig.DataCopyPerByte), heap(H|builtInFunctions.saveKeyValueStorage|.gasConfig.PersistPerByte), heap(H|builtInFunctions.saveKeyValueStorage|.gasConfig.CompilePerByte), heap(H|builtInFunctions.saveKeyValueStorage|.gasConfig.AoTPreparePerByte), heap(H|builtInFunctions.esdtTransfer|.funcGasCost), heap(H|builtInFunctions.esdtBurn|.funcGasCost), heap(H|builtInFunctions.esdtLocalMint|.funcGasCost), heap(H|builtInFunctions.esdtLocalBurn|.funcGasCost), heap(H|builtInFunctions.esdtNFTCreate|.funcGasCost), heap(H|builtInFunctions.esdtNFTCreate|.gasConfig.StorePerByte), heap(H|builtInFunctions.esdtNFTCreate|.gasConfig.ReleasePerByte), heap(H|builtInFunctions.esdtNFTCreate|.gasConfig.DataCopyPerByte), heap(H|builtInFunctions.esdtNFTCreate|.gasConfig.PersistPerByte), heap(H|builtInFunctions.esdtNFTCreate|.gasConfig.CompilePerByte), heap(H|builtInFunctions.esdtNFTCreate|.gasConfig.AoTPreparePerByte), heap(H|builtInFunctions.esdtNFTAddQuantity|.funcGasCost), heap(H|builtInFunctions.esdtNFTBurn|.funcGasCost), heap(H|builtInFunctions.esdtNFTTransfer|.funcGasCost), heap(H|builtInFunctions.esdtNFTTransfer|.gasConfig.StorePerByte), heap(H|builtInFunctions.esdtNFTTransfer|.gasConfig.ReleasePerByte), heap(H|builtInFunctions.esdtNFTTransfer|.gasConfig.DataCopyPerByte), heap(H|builtInFunctions.esdtNFTTransfer|.gasConfig.PersistPerByte), heap(H|builtInFunctions.esdtNFTTransfer|.gasConfig.CompilePerByte), heap(H|builtInFunctions.esdtNFTTransfer|.gasConfig.AoTPreparePerByte), heap(H|builtInFunctions.esdtNFTMultiTransfer|.funcGasCost), heap(H|builtInFunctions.esdtNFTMultiTransfer|.gasConfig.StorePerByte), heap(H|builtInFunctions.esdtNFTMultiTransfer|.gasConfig.ReleasePerByte), heap(H|builtInFunctions.esdtNFTMultiTransfer|.gasConfig.DataCopyPerByte), heap(H|builtInFunctions.esdtNFTMultiTransfer|.gasConfig.PersistPerByte), heap(H|builtInFunctions.esdtNFTMultiTransfer|.gasConfig.CompilePerByte), heap(H|builtInFunctions.esdtNFTMultiTransfer|.gasConfig.AoTPreparePerByte), heap(H|builtInFunctions.esdtNFTAddUri|.funcGasCost), heap(H|builtInFunctions.esdtNFTAddUri|.gasConfig.StorePerByte), heap(H|builtInFunctions.esdtNFTAddUri|.gasConfig.ReleasePerByte), heap(H|builtInFunctions.esdtNFTAddUri|.gasConfig.DataCopyPerByte), heap(H|builtInFunctions.esdtNFTAddUri|.gasConfig.PersistPerByte), heap(H|builtInFunctions.esdtNFTAddUri|.gasConfig.CompilePerByte), heap(H|builtInFunctions.esdtNFTAddUri|.gasConfig.AoTPreparePerByte), heap(H|builtInFunctions.esdtNFTupdate|.funcGasCost), heap(H|builtInFunctions.esdtNFTupdate|.gasConfig.StorePerByte), heap(H|builtInFunctions.esdtNFTupdate|.gasConfig.ReleasePerByte), heap(H|builtInFunctions.esdtNFTupdate|.gasConfig.DataCopyPerByte), heap(H|builtInFunctions.esdtNFTupdate|.gasConfig.PersistPerByte), heap(H|builtInFunctions.esdtNFTupdate|.gasConfig.CompilePerByte), heap(H|builtInFunctions.esdtNFTupdate|.gasConfig.AoTPreparePerByte)
+
+// lemmaEmittedMessageParses (C10-i, C12): every data string the message encoder emits for a function
+// name without '@' parses, with the real call-arguments parser, into exactly that name and arguments
+func lemmaEmittedMessageParses(sender []byte, function string, arguments [][]byte, rcpt []byte, out *vmcommon.VMOutput) (string, [][]byte, error) {
+	addOutputTransferToVMOutput(sender, function, arguments, rcpt, 0, vmcommon.DirectCall, out)
+	data := out.OutputAccounts[string(rcpt)].OutputTransfers[0].Data
+	return parsers.NewCallArgsParser().ParseData(string(data))
+}
+
+//@ func lemmaEmittedMessageParses
+//@   results fn, args, err
+//@   requires out != nil && noAt(seq(function)) && len(function) > 0
+//@   ensures[C10,C12] err == nil && seq(fn) == seq(function) && len(args) == len(arguments)
+//@   ensures[C10,C12] forall(j, int, 0 <= j && j < len(arguments) ==> seq(args[j]) == seq(arguments[j]))
+//@   modifies out.OutputAccounts, out.GasRemaining
+
+// the same for the NFT / multi-transfer message encoder
+func lemmaEmittedNFTMessageParses(sender []byte, function string, arguments [][]byte, rcpt []byte, out *vmcommon.VMOutput) (string, [][]byte, error) {
+	addNFTTransferToVMOutput(sender, rcpt, function, arguments, 0, 0, vmcommon.DirectCall, out)
+	data := out.OutputAccounts[string(rcpt)].OutputTransfers[0].Data
+	return parsers.NewCallArgsParser().ParseData(string(data))
+}
+
+//@ func lemmaEmittedNFTMessageParses
+//@   results fn, args, err
+//@   requires out != nil && noAt(seq(function)) && len(function) > 0
+//@   ensures[C10,C12] err == nil && seq(fn) == seq(function) && len(args) == len(arguments)
+//@   ensures[C10,C12] forall(j, int, 0 <= j && j < len(arguments) ==> seq(args[j]) == seq(arguments[j]))
+//@   modifies out.OutputAccounts
